@@ -394,6 +394,10 @@ class FContract:
         for n, sp in self._params(G).items():
             if n not in A:
                 raise EngineError('call of %s lacks %s' % (self.qual, n))
+            if isinstance(A[n], OptVal) and not isinstance(sp, (OptS, AnyS)):
+                ex.prove(st, 'call:%s@%d:arg:%s:not-none' % (tag, line, n),
+                         Not(A[n].isnone), line)
+                A[n] = A[n].val
             sp.check(ex, st, A[n], 'call:%s@%d:arg:%s' % (tag, line, n), line)
             if isinstance(A[n], Opt) and getattr(sp, 'unwrap_opt', False):
                 A[n] = A[n].obj
